@@ -1,9 +1,10 @@
 (** Property C12 — policy ref advances only to verified descendants that verification accepts.
     Only statements here; proofs are in ApplyProofs.v. *)
-From GV Require Import World ApplyModel ApplyProofs.
+From GV Require Import World ApplyModel ApplyProofs RootApi RootApiProofs.
 
 (** A successful Apply moves the policy ref exactly to the staged state, which descends from the
-    applied policy, passes full internal verification, is a valid successor of the applied policy
+    applied policy, passes full internal verification (including, when its tree carries controller
+    metadata, the verification of the declared controller repositories: [pc_ctl_ok]), is a valid successor of the applied policy
     (what later verification demands: the F8 repair), and is recorded in the log by the same
     operation with exactly one policy entry. *)
 Theorem C12_apply : forall s s', astep s AApply = (None, s') ->
@@ -13,7 +14,7 @@ Theorem C12_apply : forall s s', astep s AApply = (None, s') ->
     a_log s' = a_log s1 ++ [(true, st)] /\
     (forall p, a_policy s1 = Some p -> descends (a_commits s1) (S (List.length (a_commits s1))) st p = true) /\
     lookup_pc (a_commits s1) (match latest_entry_for (a_log s1) false with Some e => e | None => st end) = Some staged /\
-    state_verify (pc_state staged) = true /\
+    state_verify (pc_state staged) = true /\ pc_ctl_ok staged = true /\
     (forall cur, chain_verifies (policy_chain s1) = Some (Some cur) -> verify_new_state cur (pc_state staged) = true).
 Proof. exact apply_ok_spec. Qed.
 Print Assumptions C12_apply.
@@ -39,7 +40,31 @@ Theorem C12_published_always_loadable : forall ops es s,
 Proof. exact published_always_loadable. Qed.
 Print Assumptions C12_published_always_loadable.
 
-(** C12_api_partial.  The refusal of root-of-trust changes for signers who are not root principals
-    (experimental/gittuf loadRootMetadata) lives behind gittuf.Repository, which wraps a real git
-    repository; it is not modelled or exercised here.  The diverged case of ReconcileStaging
-    (history rewrite) is not modelled; generated sequences that reach it are skipped and counted. *)
+(** API level (experimental/gittuf/root.go).  A mutator call that changes the root of trust succeeds
+    only for a signer who is a root principal of the staged state being edited; anybody else is
+    refused and nothing changes. *)
+Theorem C12_api_edit_needs_root_signer : forall ps signer o ps',
+  is_edit o = true -> root_edit ps signer o = inr ps' -> kmem signer (ps_root_keys ps) = true.
+Proof. exact edit_needs_root_signer. Qed.
+Print Assumptions C12_api_edit_needs_root_signer.
+
+Theorem C12_api_outsider_refused : forall s signer o,
+  is_edit o = true -> kmem signer (ps_root_keys (ap_staged s)) = false -> api_step s signer o = (Some EUnauthorized, s).
+Proof. exact outsider_refused. Qed.
+Print Assumptions C12_api_outsider_refused.
+
+(** For every sequence of AddRootKey / RemoveRootKey / UpdateRootThreshold / SignRoot calls by any
+    signers, interleaved with Apply, on a repository whose first state verifies: the published
+    states chain from the first one (each a valid successor of the one before) and the applied one
+    verifies - root rotations over several staged steps included. *)
+Theorem C12_api_published_always_loadable : forall steps p0 es s,
+  state_verify p0 = true -> api_run (api_init p0) steps = (es, s) ->
+  chain_ok p0 (ap_published s) = Some (ap_applied s) /\ state_verify (ap_applied s) = true.
+Proof. exact api_published_always_loadable. Qed.
+Print Assumptions C12_api_published_always_loadable.
+
+(** C12_partial.  The API model covers the root role (keys, threshold, signatures); the mutators of
+    the primary rule file (experimental/gittuf/targets.go), hooks, apps and global rules go through
+    the same guard (loadRootMetadata) or its rule-file counterpart and are not exercised.  The
+    diverged case of ReconcileStaging (history rewrite) is not modelled here; generated sequences
+    that reach it are skipped and counted (its fault points are enumerated by C16). *)
